@@ -1645,6 +1645,51 @@ fail:
   return FALSE;
 }
 
+/**
+ * Undo bus_connection_complete(): used when a later step of handling
+ * Hello fails, so that the connection is not left half-registered (with
+ * a unique name but no service) and can retry its Hello.
+ *
+ * @param connection the connection
+ */
+void
+bus_connection_uncomplete (DBusConnection *connection)
+{
+  BusConnectionData *d;
+  unsigned long uid;
+
+  d = BUS_CONNECTION_DATA (connection);
+  _dbus_assert (d != NULL);
+  _dbus_assert (bus_connection_is_active (connection));
+
+  if (dbus_connection_get_unix_user (connection, &uid))
+    {
+      if (!adjust_connections_for_uid (d->connections, uid, -1))
+        _dbus_assert_not_reached ("adjusting downward should never fail");
+    }
+
+  _dbus_list_unlink (&d->connections->completed,
+                     d->link_in_connection_list);
+  d->connections->n_completed -= 1;
+  _dbus_list_append_link (&d->connections->incomplete,
+                          d->link_in_connection_list);
+  d->connections->n_incomplete += 1;
+
+  dbus_free (d->name);
+  d->name = NULL;
+  bus_client_policy_unref (d->policy);
+  d->policy = NULL;
+  dbus_free (d->cached_loginfo_string);
+  d->cached_loginfo_string = NULL;
+
+  /* Stop accept()ing if we are back at the maximum number of incomplete
+   * connections, and make sure the authentication timeout is running */
+  bus_context_check_all_watches (d->connections->context);
+  bus_connections_expire_incomplete (d->connections);
+
+  _dbus_assert (!bus_connection_is_active (connection));
+}
+
 dbus_bool_t
 bus_connections_reload_policy (BusConnections *connections,
                                DBusError      *error)
